@@ -43,3 +43,26 @@ package cmd
 //@   assert before (persistence.HistoryStore).FindByRequestID [C10 retried_run_is_the_one_asked_for] arg1 == absoluteFilePath && arg2 == requestID
 //@   assert before dag.Load [C10 retry_uses_the_recorded_parameters] arg1 == absoluteFilePath && arg2 == status.Status.Params
 //@   assert before agent.New [C10 retry_is_a_new_run_of_the_recorded_status] arg0 == newRequestID && arg1 == workflow && arg7 != nil && arg7.RetryTarget == status.Status
+
+// start (C11): the DAG is loaded with the text given to --params, with the one pair of quotes that client.Start put
+// around it removed and nothing else changed.
+//@ fn startCmd$1(cmd, args)
+//@   props C11
+//@   modifies *
+//@   expect calls dag.Load >= 1
+//@   expect calls removeQuotes >= 1
+//@   assert before dag.Load [C11 start_uses_the_given_parameters] arg1 == args[0] && arg2 == ite(len(params) > 1 && params[0] == 34 && params[len(params) - 1] == 34, substr(params, 1, len(params) - 2), params)
+
+// restart (C11): the parameters of the new run are the recorded parameter text of the latest run of this DAG.
+//@ ghost obs.prev_params string
+//@ fn getPreviousExecutionParams(e, workflow) (r, err)
+//@   props C11
+//@   requires e != nil
+//@   modifies heap(alloc), ghost obs.prev_params, ghost obs.latest, ghost obs.latest_err
+//@   records obs.prev_params = r
+//@   ensures [C11 previous_parameters_are_the_latest_run_s] err == nil ==> (obs.latest_err == nil && r == obs.latest.Params)
+//@ fn restartCmd$1(cmd, args)
+//@   props C11
+//@   modifies *
+//@   expect calls getPreviousExecutionParams >= 1
+//@   assert before dag.Load#1 [C11 restart_uses_the_previous_run_s_parameters] arg1 == specFilePath && arg2 == obs.prev_params
